@@ -142,11 +142,72 @@ fn perm_check(tables: &Tables, stmt_text: &str, si: usize, hist: &[u8]) -> (Vec<
             hist.len() as u64,
         ));
     }
+    // the same law with a result requested after every line (as follow mode does): the table shown last
+    if same && st.is_aggregate() {
+        let last = |ls: &[&str]| -> Option<Option<Vec<Vec<RVal>>>> {
+            match sut::run_incremental(tables, &st, ls) {
+                Outcome::Ok(steps) => Some(steps.iter().rev().find_map(|s| s.table.as_ref()).map(|t| t.rows.clone())),
+                _ => None,
+            }
+        };
+        if let (Some(x), Some(y)) = (last(&lines), last(&slines)) {
+            let eq = match (&x, &y) {
+                (Some(p), Some(q)) => rows_close(p, q),
+                (None, None) => true,
+                _ => false,
+            };
+            if !eq {
+                out.push(fail(
+                    "order-dependent:result-per-line".into(),
+                    format!("`{}` with a result after every line: the last table differs between input order {:?} and sorted order {:?}", stmt_text, hist, sorted),
+                    json!({"law": "perm", "stmt": si, "statement": stmt_text, "history": hist, "lines": lines, "driver": "incremental"}),
+                    y.map(|r| rows_json(&r)).unwrap_or(J::Null),
+                    x.map(|r| rows_json(&r)).unwrap_or(J::Null),
+                    hist.len() as u64,
+                ));
+            }
+        }
+    }
     let oh = match &a {
         Outcome::Ok(t) => h64(&format!("{:?}", t.rows)),
         o => h64(&o.kind()),
     };
     (out, nontrivial, oh)
+}
+
+const BIG_DEF: &str = "CREATE TABLE g(line = '^k=([a-z]+) v=(-?[0-9]+)$', line[1] => k TEXT, line[2] => v INT);";
+const BIG_STMTS: [&str; 4] = ["SELECT k, COUNT(*), SUM(v), AVG(v), STDDEV(v), VARIANCE(v) FROM g GROUP BY k", "SELECT STDDEV(v), VARIANCE(v), PERCENTILE(v, 0.5) FROM g", "SELECT k, MIN(v), MAX(v), COUNT(DISTINCT v) FROM g GROUP BY k", "SELECT VARIANCE(v) FROM g WHERE k = 'a'"];
+
+fn big_lines() -> Vec<&'static str> {
+    // INT values whose squares add up beyond 2^53 (a REAL accumulator would round) but stay inside the INT range
+    // (found by search: summing these squares as doubles gives 5 different totals over the 5040 orders)
+    vec!["k=a v=446220853", "k=a v=-874188973", "k=a v=200751796", "k=a v=-271988205", "k=a v=548906293", "k=a v=1042484889", "k=a v=1386865235"]
+}
+
+/// every permutation of the 7 large-INT lines against the identity order, exact comparison (INT inputs)
+fn big_case(tables: &Tables, si: usize, perm: &[usize]) -> Vec<Failure> {
+    let al = big_lines();
+    let st = sut::parse(BIG_STMTS[si]).unwrap();
+    let base = sut::run_batch(tables, &st, &al);
+    let lines: Vec<&str> = perm.iter().map(|i| al[*i]).collect();
+    let got = sut::run_batch(tables, &st, &lines);
+    let same = match (&base, &got) {
+        (Outcome::Ok(x), Outcome::Ok(y)) => sut::rows_same(&x.rows, &y.rows),
+        (Outcome::Err(_), Outcome::Err(_)) => true,
+        _ => false,
+    };
+    if same {
+        vec![]
+    } else {
+        vec![fail(
+            format!("order-dependent:large-int:{}", si),
+            format!("`{}` over large INT values: result for line order {:?} differs from the result for the original order", BIG_STMTS[si], perm),
+            json!({"law": "big", "stmt": si, "statement": BIG_STMTS[si], "perm": perm, "history": []}),
+            sut::outcome_json(&base, |t| t.to_json()),
+            sut::outcome_json(&got, |t| t.to_json()),
+            perm.len() as u64,
+        )]
+    }
 }
 
 fn cut_check(tables: &Tables, ci: usize, hist: &[u8]) -> Vec<Failure> {
@@ -264,6 +325,22 @@ pub fn run(ctx: &Ctx) -> i32 {
         done += 1;
     }
     col.layer("cut law (stateright BFS per statement)", done, complete, json!({"statements": ncut, "depth": depth}));
+    // large INT values: all 5040 permutations of 7 lines x 4 statements
+    {
+        let bt = sut::make_tables(BIG_DEF).unwrap();
+        let perms = permutations(7);
+        let total = (perms.len() * BIG_STMTS.len()) as u64;
+        let (done, complete) = par_for_budget(ctx, total, 64, |idx| {
+            let si = idx as usize % BIG_STMTS.len();
+            let perm = &perms[idx as usize / BIG_STMTS.len()];
+            col.eval(1);
+            col.nontrivial(h64(&("big", si, perm)));
+            for f in big_case(&bt, si, perm) {
+                col.fail(f);
+            }
+        });
+        col.layer("large INT values (all permutations)", done, complete, json!({"lines": big_lines(), "statements": BIG_STMTS}));
+    }
     // long inputs: (a) line boundaries aligned with the reader's 8192-byte buffer, (b) more distinct values per group than
     // any small-collection optimisation would hold; the result must not depend on alignment, order or rotation
     {
@@ -356,6 +433,10 @@ pub fn replay(case: &J) -> Vec<Failure> {
     let hist: Vec<u8> = case["history"].as_array().unwrap().iter().map(|x| x.as_u64().unwrap() as u8).collect();
     match case["law"].as_str() {
         Some("perm") => perm_check(&tables, case["statement"].as_str().unwrap(), case["stmt"].as_u64().unwrap() as usize, &hist).0,
+        Some("big") => {
+            let perm: Vec<usize> = case["perm"].as_array().unwrap().iter().map(|x| x.as_u64().unwrap() as usize).collect();
+            big_case(&sut::make_tables(BIG_DEF).unwrap(), case["stmt"].as_u64().unwrap() as usize, &perm)
+        }
         Some("cut") => cut_check(&tables, case["stmt"].as_u64().unwrap() as usize, &hist),
         _ => vec![],
     }
